@@ -29,9 +29,12 @@ import (
 
 // Harness sites (bloom sites are 1..7, gcs sites 16+).
 const (
-	siteOpStart = 40
-	siteOpEnd   = 41
-	gcsSiteBase = 16
+	siteOpStart  = 40
+	siteOpEnd    = 41
+	gcsSiteBase  = 16
+	siteStmt     = 20 // inserted before every statement of bloom/filter.go, bloom/merkleblock.go
+	siteStmtGCS  = gcsSiteBase + 20
+	stmtEveryKey = "stmt_every"
 )
 
 // active is the scheduler of the run in progress. It is written by the main
@@ -210,6 +213,16 @@ func (e *c20Engine) generate(seed uint64) (*kit.Trace, *kit.Rng) {
 	for _, s := range all {
 		if dense || cr.Chance(1, 2) {
 			t.Sites = append(t.Sites, s)
+		}
+	}
+	// statement-level preemption (automatic instrumentation of the scratch
+	// copy): in about half of the runs, every k-th statement offers a decision
+	if cr.Chance(1, 2) {
+		t.Sites = append(t.Sites, siteStmt, siteStmtGCS)
+		if kind == kindGCS {
+			t.Config[stmtEveryKey] = int64([]int{8, 16, 32, 64}[cr.Intn(4)])
+		} else {
+			t.Config[stmtEveryKey] = int64([]int{1, 1, 2, 3, 5, 8}[cr.Intn(6)])
 		}
 	}
 	if len(t.Sites) == 0 {
@@ -727,6 +740,9 @@ func (e *c20Engine) execute(t *kit.Trace, srng *kit.Rng, st *kit.Stats, record b
 	if w.kind == kindComposite {
 		maxSteps = 2000 + 800*totalOps
 	}
+	if t.Cfg(stmtEveryKey, 0) > 0 {
+		maxSteps *= 6
+	}
 	var s *sched.Sched
 	if srng != nil {
 		s = sched.New(nt, srng, nil, maxSteps)
@@ -739,6 +755,8 @@ func (e *c20Engine) execute(t *kit.Trace, srng *kit.Rng, st *kit.Stats, record b
 		s = sched.New(nt, nil, t.Schedule, maxSteps)
 	}
 	s.GateSite = bloom.SimSiteBeforeLock
+	s.SparseSites[siteStmt], s.SparseSites[siteStmtGCS] = true, true
+	s.SparseEvery = int(t.Cfg(stmtEveryKey, 1))
 	for _, x := range t.Sites {
 		if x > 0 && x < sched.MaxSites {
 			s.Sites[x] = true
@@ -819,7 +837,9 @@ func (e *c20Engine) execute(t *kit.Trace, srng *kit.Rng, st *kit.Stats, record b
 	active = s
 	sched.SetInRun(true)
 	s.Run(bodies)
-	active = nil
+	if s.Abandoned() == 0 {
+		active = nil // (an abandoned task may still wake up and read it)
+	}
 	// the watchdog stays armed during the post-run checks (they call the
 	// real filter from this goroutine)
 	defer sched.SetInRun(false)
@@ -874,6 +894,33 @@ func (e *c20Engine) execute(t *kit.Trace, srng *kit.Rng, st *kit.Stats, record b
 		return out
 	}
 
+	// 1. race detector
+	if rep := e.raceReports(); rep != "" {
+		st.Probe("race-report")
+		class, harnessOnly := classifyRace(rep)
+		if harnessOnly && strings.Count(rep, "props.(*c20World).doGCS()") >= 2 && (strings.Contains(rep, "props.scribble()") || strings.Contains(rep, "props.sumBytes()")) {
+			// two client tasks conflict on a buffer that each of them
+			// received from the filter as its own: the filter handed out
+			// shared memory
+			return fail(kit.V("gcs-interference:returned-buffer-shared", "two tasks race on byte slices returned to them by the GCS filter accessors (each caller owns what it is given; the harness scribbles over it on purpose):\n%s", rep))
+		}
+		if harnessOnly {
+			return fail(&kit.Violation{Class: "harness-race", Key: "harness-race", Detail: "race report without a frame of the code under test (framework trouble):\n" + rep})
+		}
+		return fail(&kit.Violation{Class: class, Key: class, Detail: rep})
+	}
+	// tasks abandoned inside the runtime (blocked forever in a real Lock)
+	// never joined: their memory must not be read; the verdict is the
+	// scheduler's
+	if s.Abandoned() > 0 {
+		st.Probe("deadlock")
+		st.Probe("task-abandoned-blocked-in-runtime")
+		return fail(kit.V("deadlock", "%d task(s) blocked forever inside a real lock acquisition in the code under test while every other task had finished or was waiting for the same mutex; scheduler step %d", s.Abandoned(), s.Steps))
+	}
+	if s.RTBlocks > 0 {
+		st.Probe("task-blocked-in-runtime-and-resumed")
+		st.Extra["runtime_blocks_handled"] += int64(s.RTBlocks)
+	}
 	// overlap / non-triviality
 	type iv struct {
 		c        int
@@ -911,21 +958,6 @@ func (e *c20Engine) execute(t *kit.Trace, srng *kit.Rng, st *kit.Stats, record b
 		st.NonTrivial++
 	}
 
-	// 1. race detector
-	if rep := e.raceReports(); rep != "" {
-		st.Probe("race-report")
-		class, harnessOnly := classifyRace(rep)
-		if harnessOnly && strings.Count(rep, "props.(*c20World).doGCS()") >= 2 && (strings.Contains(rep, "props.scribble()") || strings.Contains(rep, "props.sumBytes()")) {
-			// two client tasks conflict on a buffer that each of them
-			// received from the filter as its own: the filter handed out
-			// shared memory
-			return fail(kit.V("gcs-interference:returned-buffer-shared", "two tasks race on byte slices returned to them by the GCS filter accessors (each caller owns what it is given; the harness scribbles over it on purpose):\n%s", rep))
-		}
-		if harnessOnly {
-			return fail(&kit.Violation{Class: "harness-race", Key: "harness-race", Detail: "race report without a frame of the code under test (framework trouble):\n" + rep})
-		}
-		return fail(&kit.Violation{Class: class, Key: class, Detail: rep})
-	}
 	// panics in the code under test
 	for c, p := range panics {
 		if p != "" {
